@@ -71,6 +71,7 @@ type c09Variant struct {
 	mainOK     bool
 	extraSelf  bool // keymaster_public_keys_filename lists the main key itself
 	extraOther bool // ... and a foreign key
+	extraEd    bool // keymaster_public_keys_filename lists this host's Ed25519 key
 }
 
 const c09OtherPass = "another passphrase"
@@ -82,6 +83,8 @@ var c09Variants = []c09Variant{
 	{name: "ed-not-ed25519", edPass: verifPassphrase, edOK: false, mainOK: true},
 	{name: "main-unusable+ed", edPass: verifPassphrase, edOK: true, mainOK: false},
 	{name: "rsa+listed", mainOK: true, extraSelf: true, extraOther: true},
+	{name: "rsa+ed, ed listed", edPass: verifPassphrase, edOK: true, mainOK: true, extraEd: true},
+	{name: "rsa+ed, both listed", edPass: verifPassphrase, edOK: true, mainOK: true, extraEd: true, extraSelf: true},
 }
 
 func (v c09Variant) coq(name string) string {
@@ -90,6 +93,9 @@ func (v c09Variant) coq(name string) string {
 		ed = fmt.Sprintf("Some (%s, 2, %s)", coqPacked([]byte(v.edPass)), coqBool(v.edOK))
 	}
 	var extra []string
+	if v.extraEd {
+		extra = append(extra, "2")
+	}
 	if v.extraSelf {
 		extra = append(extra, "1")
 	}
@@ -103,10 +109,11 @@ func (v c09Variant) coq(name string) string {
 // a sealed state for the variant, through the production configuration path
 func c09Sealed(t *testing.T, v c09Variant, edit func(c *AppConfigFile, dir string)) *verifEnv {
 	return verifSetupSealed(t, func(c *AppConfigFile, dir string) {
+		var edPub ed25519.PublicKey
 		if v.edPass != "" {
 			var plain []byte
 			if v.edOK {
-				plain, _ = c09EdPEM()
+				plain, edPub = c09EdPEM()
 			} else {
 				// a perfectly good RSA key where an Ed25519 key is expected
 				raw, err := ioutil.ReadFile(c.Base.SSHCAFilename)
@@ -131,8 +138,16 @@ func c09Sealed(t *testing.T, v c09Variant, edit func(c *AppConfigFile, dir strin
 				t.Fatal(err)
 			}
 		}
-		if v.extraSelf || v.extraOther {
+		if v.extraSelf || v.extraOther || v.extraEd {
 			var lines []byte
+			if v.extraEd && edPub != nil {
+				sp, err := ssh.NewPublicKey(edPub)
+				if err != nil {
+					t.Fatal(err)
+				}
+				lines = append(lines, bytes.TrimSpace(ssh.MarshalAuthorizedKey(sp))...)
+				lines = append(lines, '\n')
+			}
 			if v.extraSelf {
 				b, err := ioutil.ReadFile(c.Base.SSHCAFilename + ".pub")
 				if err != nil {
@@ -687,7 +702,7 @@ func c09CoqProg(as []c09Artefact) string {
 }
 
 func TestVerif_C09(t *testing.T) {
-	res := newVerifResult("(a) injection sequences: every sequence of length <=2 over 12 injection shapes (right / wrong / empty / near-miss passphrase x with/without TLS and verified chain x field present) plus seeded random sequences of length 3..7, on 6 key-file configurations (RSA; RSA+Ed25519; Ed25519 under another passphrase; Ed25519 file not Ed25519; main key unusable; own key pre-listed), each on a fresh sealed state from loadVerifyConfigFile, compared step by step with Model.Seal.inject_run; (b) every route of the regenerated mux x {GET,POST} x 5 credentials plus targeted signing requests, on a sealed state, on a half-loaded state (Ed25519 loaded, main key unusable) and on the unsealed twin: non-trivial = the twin emits a signed artefact for that request; (c) artefacts of the twin verified against /public/x509ca, /public/sshca and the JWKS")
+	res := newVerifResult("(a) injection sequences: every sequence of length <=2 over 12 injection shapes (right / wrong / empty / near-miss passphrase x with/without TLS and verified chain x field present) plus seeded random sequences of length 3..7, on 8 key-file configurations (RSA; RSA+Ed25519; Ed25519 under another passphrase; Ed25519 file not Ed25519; main key unusable; own key pre-listed; Ed25519 key pre-listed; both pre-listed), each on a fresh sealed state from loadVerifyConfigFile, compared step by step with Model.Seal.inject_run; (b) every route of the regenerated mux x {GET,POST} x 5 credentials plus targeted signing requests, on a sealed state, on a half-loaded state (Ed25519 loaded, main key unusable) and on the unsealed twin: non-trivial = the twin emits a signed artefact for that request; (c) artefacts of the twin verified against /public/x509ca, /public/sshca and the JWKS")
 	rng := verifRand()
 	var sb, idx strings.Builder
 	sb.WriteString(coqCaseHeader)
@@ -818,7 +833,7 @@ func TestVerif_C09(t *testing.T) {
 	edUser := strings.TrimSpace(string(ssh.MarshalAuthorizedKey(edSSH))) + " verif-ed@harness\n"
 	var routeCases []c09RouteCase
 	probedRoutes := map[string]bool{}
-	for _, vi := range []int{0, 1, 4} {
+	for _, vi := range []int{0, 1, 4, 6} {
 		v := c09Variants[vi]
 		sealedEnv := c09Sealed(t, v, c09Edit)
 		sealedEnv.enableFakeAws()
@@ -869,6 +884,9 @@ func TestVerif_C09(t *testing.T) {
 		for _, p := range probes {
 			if !verifThorough() && vi == 1 && strings.HasPrefix(p.name, "sweep") && !strings.Contains(p.name, "user") {
 				continue
+			}
+			if !verifThorough() && vi == 6 && strings.HasPrefix(p.name, "sweep") {
+				continue // the pre-listed-key configuration: targeted signing requests only in the quick tier
 			}
 			// unsealed twin first
 			treq, tsent := p.build(twin, twin)
